@@ -148,6 +148,12 @@ def get_all_rules(rules_path=None, match_mode='first_match'):
     """
     global _cached_engine, _cached_engine_path
 
+    # Every load defines the current rule set: forget the engine of a previously loaded
+    # .rules file, otherwise normalize_merchant() keeps classifying with it after a CSV
+    # file, no file, or a .rules file that fails to parse has been loaded
+    _cached_engine = None
+    _cached_engine_path = None
+
     user_rules_with_source = []
     if rules_path:
         # Check if it's the new .rules format
